@@ -437,7 +437,7 @@ fn run_session(seed: u64, n: u64, long: bool, ev: &mut Evidence) {
         }
     }
     // idle frames must never have become a result: covered by the unique-serial check above
-    if n < 2 && !long {
+    if n < 40 && !long {
         ev.sample(json!({"requests": plans.len(), "style": style.name(), "queue": queue, "first_plans": plans.iter().take(5).map(|p| format!("{:?}", p.beh)).collect::<Vec<_>>(), "first_tx_ids": frames.iter().take(5).map(|f| f.0).collect::<Vec<_>>(), "idle_frames": idle.len()}));
     }
     if long {
